@@ -631,6 +631,9 @@ def c02():
     # a transient storage error in the flush that should store the entry, then a good flush / close: a fresh handle reads what was written
     ff = [gen.flush_fault_io_program(rng, "flush-fault-%d" % i, gen.K(["K1b", "K2", "K5"][i % 3]), CS[["K1b", "K2", "K5"][i % 3]]) for i in range(scale(24, 240))]
     res.append(("io-flush-fault", core.campaign("io-flush-fault", ff, wd)))
+    # a device call of a growing write fails, the write is repeated, other files grow: no chain may lead into a free cluster
+    af = [gen.append_fault_program(rng, "append-fault-%d" % i, gen.K(["K1b", "K2", "K5", "K3"][i % 4]), CS[["K1b", "K2", "K5", "K3"][i % 4]]) for i in range(scale(40, 400))]
+    res.append(("io-append-fault", core.campaign("io-append-fault", af, wd)))
     # design level: the cursor machine of file.rs (FileB) model-checked, every transition of its state graph replayed on the code
     mc, fprogs = mc_file_b(wd, rng_for("C02", 31))
     res.append(("mc-fileb", core.campaign("mc-fileb", fprogs, wd, n_shards=12)))
@@ -647,7 +650,7 @@ def c02():
                 "length = ceil(size / cluster), content = reference, results allowed by the reference; every transition of the explored graph is "
                 "replayed on the library (quick: a sample) with the model's predicted result / table / entries compared; (1) random and boundary (k*cluster-1, k*cluster, k*cluster+1) seek/read/write/truncate/flush/reopen programs on 1-3 interleaved files; "
                 "TLC evaluates the byte-array model on every event",
-                ASSUME_TRACE)
+                ASSUME_TRACE, extra_prefixes=("C00.", "C03.link_free"))
 
 
 def c03():
@@ -666,6 +669,8 @@ def c03():
         vol, cs = gen.top_clusters_volume(rng, [12, 16][i % 2])
         top.append(gen.fill_program(rng, "top-fill-%d" % i, {"vol": vol}, cs, rounds=2, chunk_clusters=(1, 2, 3), use_dirs=(i % 3 == 0)))
     res.append(("top-clusters", core.campaign("top-clusters", top, wd)))
+    af = [gen.append_fault_program(rng, "append-fault-%d" % i, gen.K(["K1b", "K2", "K5", "K3"][i % 4]), CS[["K1b", "K2", "K5", "K3"][i % 4]]) for i in range(scale(24, 240))]
+    res.append(("append-fault", core.campaign("append-fault", af, wd)))
     core.finish("C03", LEVEL, res, mc_layer_b(wd, deep=True), t0,
                 "namespace, file-I/O and fill-to-full programs; the structural invariants (Fat/DirSlots/FatFsA!StructViol) are evaluated by TLC on the raw "
                 "image after every single call",
@@ -703,6 +708,9 @@ def c04():
         vol, cs = gen.top_clusters_volume(rng, [12, 16][i % 2])
         top.append(gen.io_program(rng, "top-io-%d" % i, {"vol": vol}, cs, 35, n_files=3, max_clusters=4))
     res.append(("top-clusters", core.campaign("top-clusters", top, wd)))
+    # a FAT32 tree above cluster 65535 (chains beginning at 65536 / 131072 among them): files emptied and rewritten in low clusters, moves
+    high = [gen.foreign_high_program(rng, "c04-high-%d" % i, rewrite=0.8) for i in range(scale(8, 80))]
+    res.append(("foreign-high", core.campaign("foreign-high", high, wd)))
     core.finish("C04", LEVEL, res, None, t0,
                 "after every call a clone of the image is mounted afresh and listed/read through the library, and the raw bytes are decoded independently; "
                 "both must equal the model tree (names, kinds, sizes, contents, stamps); extents are read straight from the device",
@@ -801,6 +809,15 @@ def c13():
     # FAT32 volumes whose information sector holds the valid counts 0 and 1 (full, one cluster free)
     rng = rng_for("C13", 5)
     res.append(("ro-full", core.campaign("ro-full", [gen.ro_full_program(rng, "ro-full-%d" % i) for i in range(scale(12, 120))], wd)))
+    # FAT32 with sectors larger than 512 bytes, free count unknown / not trusted: the one permitted write goes to the information SECTOR
+    big = []
+    for i in range(scale(9, 90)):
+        bps = [1024, 2048, 4096][i % 3]
+        cfg = {"vol": gen.fmt(67000 * bps, bps=bps, bpc=bps, fats=1 + i % 2, ft=32), "optord": i % 5}
+        unknown = i % 2 == 0
+        big.append(gen.ro_program(rng, "ro-bigsec-%d" % i, cfg, bps, 25, end_setup="unmount" if unknown else "abandon",
+                                  poke=[[bps + 488, [255, 255, 255, 255]]] if unknown else None, end=rng.choice(["unmount", "dropfs"])))
+    res.append(("ro-bigsector", core.campaign("ro-bigsector", big, wd)))
     core.finish("C13", LEVEL, res, None, t0,
                 "populated FAT12/16/32 volumes (clean, abandoned-dirty, FSInfo count/hint unknown, foreign status bits), then sessions of non-mutating "
                 "calls only; TLC checks that no device write is issued (FSInfo exemption after statistics without a usable count)",
@@ -969,6 +986,7 @@ def c15():
     rng = rng_for("C15", 0)
     batches = gen.name_sets(rng, fold_table(), quick=(core.tier() == "quick"))
     cfg = dict(gen.K("K2"), obs={"raw": True, "rv": True, "sv": True})
+    batches = batches + gen.overlong_fold_batches()
     progs = [gen.name_program("names-%d" % i, cfg, names, lookups) for i, (names, lookups) in enumerate(batches)]
     res = [("names", core.campaign("names", progs, wd, n_shards=14))]
     # names stay what they are while their neighbours come and go (gaps of deleted slots reused by longer and shorter names)
@@ -1019,6 +1037,9 @@ def c16():
     res = [("alias", core.campaign("alias", progs, wd, n_shards=14))]
     moves = [gen.alias_move_program(rng, "alias-move-%s-%d" % (k, i), gen.K(k), n=rng.choice([4, 8, 12])) for k in ("K2", "K3", "K5") for i in range(scale(6, 60))]
     res.append(("alias-move", core.campaign("alias-move", moves, wd)))
+    # one device call of a creation among colliding aliases fails (the scan reads among them), the program goes on
+    af = [gen.alias_fault_program(rng, "alias-fault-%s-%d" % (k, i), gen.K(k)) for k in ("K2", "K3", "K5") for i in range(scale(16, 160))]
+    res.append(("alias-fault", core.campaign("alias-fault", af, wd)))
     # design level: the generator as a state machine (AliasGen) model-checked; the directories around the wrap of the hash replayed on the code
     mc, aprogs = mc_alias_gen(wd, rng_for("C16", 41))
     res.append(("mc-aliasgen", core.campaign("mc-aliasgen", aprogs, wd, n_shards=8)))
@@ -1029,7 +1050,7 @@ def c16():
                 "(1) directories populated with names colliding on the 6-character alias form, on the 2-character+checksum form (names searched for equal 16-bit "
                 "name checksum), user names that look like aliases, non-ASCII and dotted/spaced names, with removals in between; for every created entry TLC "
                 "checks the alias is legal, unique in its directory and that every long-name slot carries its checksum",
-                ASSUME_TRACE)
+                ASSUME_TRACE, extra_prefixes=("C00.", "C03.dup_short"))
 
 
 def c18():
@@ -1051,6 +1072,10 @@ def c18():
         progs.append(gen.clock_program(rng, "clock-%d" % i, gen.K(kname), CS[kname], 30, atime=(i % 2 == 0)))
     for i in range(scale(12, 120)):
         progs.append(gen.stamp_fault_program(rng, "stamp-fault-%d" % i, gen.K(["K1b", "K2", "K5"][i % 3])))
+    # reads that do not start at the beginning of the file stamp the access date too (option on)
+    for i in range(scale(9, 90)):
+        kname = ["K1b", "K2", "K5"][i % 3]
+        progs.append(gen.atime_seek_program(rng, "atime-seek-%d" % i, gen.K(kname), CS[kname]))
     # a write that fails on a full volume stores nothing and stamps nothing
     for i in range(scale(12, 120)):
         kname = ["K1", "K1b", "K2"][i % 3]
@@ -1174,12 +1199,15 @@ def c11():
     for i in range(scale(24, 240)):
         kname = ["K1", "K1b", "K2", "K5"][i % 4]
         progs.append(gen.reuse_program(rng, "c11-reuse-%s-%d" % (kname, i), gen.K(kname), CS[kname]))
+    for i in range(scale(40, 400)):
+        kname = ["K1b", "K2", "K5", "K3"][i % 4]
+        progs.append(gen.append_fault_program(rng, "c11-append-fault-%d" % i, gen.K(kname), CS[kname]))
     res = [("writes", core.campaign("writes", progs, wd, n_shards=14))]
     core.finish("C11", LEVEL, res, None, t0,
                 "every device write of namespace, file-I/O and fill histories on own and builder volumes embedded in a larger device (guard bytes after the "
                 "declared end, filler in reserved sectors and boot code), with devices performing short transfers; each write is mapped to its region in u64 "
                 "arithmetic and TLC checks the region is permitted and that written clusters belong to the objects the call may change or were free",
-                ASSUME_TRACE)
+                ASSUME_TRACE, extra_prefixes=("C00.", "C03.link_free"))
 
 
 def c20():
@@ -1238,7 +1266,7 @@ def c19():
     res.append(("fold-param", core.campaign("fold-param", uni2, wd, feat="nounicode")))
     # directories only another writer or a power cut produces (orphaned beginnings of long-name runs in front of complete runs, runs of
     # every length with and without terminator): every build must decode them as the one specification says, hence alike
-    dirs = gen.orphan_cases(rng, quick=(core.tier() == "quick")) + gen.single_slot_cases()
+    dirs = gen.orphan_cases(rng, quick=(core.tier() == "quick")) + gen.single_slot_cases() + gen.half_deleted_cases() + gen.interrupted_run_cases()
     for n in range(1, 21):
         for ln in (n * 13, n * 13 - 1):
             dirs.append(gen.lfn_run_slots([ord("A") + (k % 26) for k in range(ln)], gen._chk([ord(c) for c in "TARGET  TXT"]))
